@@ -5,7 +5,7 @@ CONSTANTS
   RestDurs = {1}
   NodeDurs = {0,1,2,3}
   UseSw = FALSE
-  UseFs = TRUE
+  FsOps = {"FileScan","FileCorrupt","FileRepair","FileRestore","SqlDelete","SqlEncrypt","FolderCorrupt","FolderRepair","FolderScan","FolderRestore"}
   AllowRestart = TRUE
   InitSw = {"GOOD"}
 VIEW View
@@ -24,5 +24,4 @@ PROPERTY RestoreInWindow
 PROPERTY OsScanInWindow
 PROPERTY InstantOnlyAtZero
 PROPERTY OffTicksChangeNothing
-
 CHECK_DEADLOCK TRUE
